@@ -106,7 +106,11 @@ func init() {
 
 func init() {
 	families["C09"] = &rt.Family{Prop: "C09", Module: "MC_C09", PackSize: 1, Judge: "value", JudgeBuild: true,
-		More: []rt.Extra{{Module: "MC_C10", ExtraCfg: tierCfg, Keep: twoDocsDefaults}},
+		More: []rt.Extra{{Module: "MC_C10", ExtraCfg: tierCfg, Keep: twoDocsDefaults},
+			// a default next to constraints the Go zero value violates (minLength, pattern, bounds): units of the C06 and
+			// C05 families at the position "optional with default"
+			{Module: "MC_C06", ExtraCfg: maxStr(1, 2), Keep: func(u *rt.Unit) bool { return u.Str("pos") == "optdefault" }},
+			{Module: "MC_C05", Keep: func(u *rt.Unit) bool { return u.Str("pos") == "optdefault" }, Frac: frac(0.05, 0.5)}},
 		Rule: "units = 19 property kinds (integer, number, string with quote/backslash/non-ASCII, boolean, nullable integer/string, typed/untyped/mixed enum, arrays of string/integer, nested array, object with required fields inline and via $ref, object with optional fields, typed additionalProperties map, date, date-time, sized integer) x 2 defaults x required flag; documents = property absent, null, present with another value, present with the default. Judged: verdict, decoded value (absent/null => default, present => document value), re-marshalled value, and that the emitted package compiles. distinct_nontrivial = distinct (unit, document) pairs with a definite reference verdict"}
 }
 
